@@ -1,7 +1,49 @@
-//! SMIErgodicIndicator — reference model (TODO).
+//! SMIErgodicIndicator. Doc (links motivewave's "SMI Ergodic Indicator"): the SMI is the True Strength
+//! Index with a long (`period1`) and a short (`period2`) smoothing, the signal line is a moving
+//! average of it, the oscillator is their difference.
+//! 3 values: `SMI` main value; `Signal line` value; `Oscillator` value (= SMI - signal line).
+//! 1 signal: "When `Signal line` value is below `-zone` and `SMI` value crosses `Signal line` upwards,
+//! returns full buy signal. When `Signal line` value is above `+zone` and `SMI` value crosses
+//! `Signal line` downwards, returns full sell signal. Otherwise returns no signal."
 use super::*;
 
-/// returns None until the reference is written
-pub fn make(_cfg: &Cfg, _c0: &RC) -> Option<Box<dyn IndRef>> {
-	None
+#[derive(Clone)]
+pub struct SMIErgodicIndicator {
+	src: String,
+	zone: f64,
+	tsi: rm::Tsi,
+	sig: Box<dyn rm::RefVV>,
+	x: CrossD,
+}
+
+impl IndRef for SMIErgodicIndicator {
+	fn values(&mut self, c: &RC) -> Vec<Q> {
+		let s = source(c, &self.src);
+		let smi = self.tsi.step(s);
+		// an undefined main value makes the signal line undefined for as long as the average remembers it
+		// (finite centre: the median average sorts its window)
+		let sig = self.sig.stepq(if smi.is_defined() { smi } else { Q::new(0.0, f64::INFINITY) });
+		vec![smi, sig, smi - sig]
+	}
+	fn signals(&mut self, _c: &RC, own: &[f64]) -> Vec<Sig> {
+		let (smi, sig) = (own[0], own[1]);
+		let x = self.x.cross(smi, sig);
+		let s = (x > 0 && sig < -self.zone) as i32 - (x < 0 && sig > self.zone) as i32;
+		vec![sig_sign(s)]
+	}
+	indref!(SMIErgodicIndicator);
+}
+
+pub fn make(cfg: &Cfg, c0: &RC) -> Option<Box<dyn IndRef>> {
+	let src = cfg.src("source");
+	let (long, short) = (cfg.int("period1"), cfg.int("period2"));
+	let s0 = source(c0, &src);
+	Some(Box::new(SMIErgodicIndicator {
+		zone: cfg.float("zone"),
+		// constant prehistory: no momentum at all, the TSI is 0 there, and so is its average
+		tsi: rm::Tsi::new(short, long, s0.v),
+		sig: cfg.ma_ref("signal", Q::exact(0.0)),
+		x: CrossD::new(0.0),
+		src,
+	}))
 }
